@@ -69,6 +69,14 @@ def guard_chain(fn, local, mode):
                 if d2 and d2[0] == 'stmt' and d2[1]['k'] == 'ref':
                     g = d2[1]['p']['l']
                     dg = def_of(fn, g)
+                    for _r in range(4):
+                        # a named guard is re-borrowed before the deref (`let g = lock.read(); State::clone(&g)`): follow &*&g to g
+                        if dg and dg[0] == 'stmt' and dg[1]['k'] in ('ref', 'use'):
+                            pl_ = dg[1].get('p') or op_place(dg[1].get('a', {}))
+                            if pl_ is None or any(e['k'] != 'deref' for e in pl_['p']):
+                                break
+                            g = pl_['l']
+                            dg = def_of(fn, g)
                     if dg and dg[0] == 'call' and re.search(r'lock_api::rwlock::RwLock::<R, T>::(%s)$' % mode, dg[1]['resolved'] or dg[1]['callee']):
                         a = op_place(dg[1]['args'][0])
                         da = def_of(fn, a['l']) if a else None
